@@ -841,7 +841,20 @@ func (c13) Oracle(inp interface{}, obs Sx) (string, string) {
 		}
 	}
 	if sessions != want {
-		return fmt.Sprintf("%d sessions established on the server, fault sequence calls for %d", sessions, want), fmt.Sprintf("sessions-%s", cmpWord(sessions, want))
+		sig := fmt.Sprintf("sessions-%s", cmpWord(sessions, want))
+		if sessions >= 1 && sessions < want && int(sessions) <= len(in.Rounds) {
+			// the round after which no new session came: what the manager met while reconnecting
+			rd := in.Rounds[sessions-1]
+			for _, f := range rd.Fails {
+				if c13DropsSession(f) {
+					sig = "gave-up-after-cut-negotiation"
+				}
+			}
+			if sig == "sessions-missing" && rd.RefuseMs > 0 && in.WS {
+				sig = "gave-up-after-refused-websocket-dial"
+			}
+		}
+		return fmt.Sprintf("%d sessions established on the server, fault sequence calls for %d", sessions, want), sig
 	}
 	if post != want {
 		return fmt.Sprintf("PostConnect ran %d times for %d sessions", post, want), "post-connect-count"
